@@ -1020,6 +1020,26 @@ func (e *SpecEnv) call(x *SExpr) *Val {
 			}
 		}
 	}
+	// pure method of a concrete type: x.M(args) with (T).M or (*T).M under a pure contract
+	if callee.Kind == "sel" {
+		recv := e.evalSafe(callee.Args[0])
+		if recv != nil && recv.T != nil && !isIfaceType(e.te.apply(recv.T)) {
+			rtyp := e.te.apply(recv.T)
+			if sel := e.run.v.prog.MethodSets.MethodSet(rtyp).Lookup(e.typesPkg(), callee.Name); sel != nil {
+				if fn := e.run.v.prog.MethodValue(sel); fn != nil {
+					if spec, cs := e.run.v.specFor(fn); spec != nil && spec.Has("pure") {
+						sig := fn.Signature
+						avs := append([]*Val{recv}, e.evalArgs(args)...)
+						var rt types.Type = sig.Results()
+						if sig.Results().Len() == 1 {
+							rt = sig.Results().At(0).Type()
+						}
+						return e.run.v.pureResult(spec, cs, fn, sig, avs, e.te, rt)
+					}
+				}
+			}
+		}
+	}
 	// call of a function-typed value: pure application
 	fv := e.eval(callee)
 	if len(fv.L) == 1 && fv.L[0].Sort == SInt && fv.T != nil {
